@@ -60,7 +60,7 @@ inductive Elem where
 inductive Err where
   | truncated      -- FormatError::TruncatedFormatCode
   | unknownConv    -- FormatError::UnrecognizedConversionType
-  | tooLarge       -- FormatError::FieldWidthTooLarge
+  | tooLarge       -- FormatError::FieldWidthTooLarge (also: float precision above 308)
   | notEnough      -- FormatError::NotEnoughValues
   | tooMany        -- "too many values to format"
   | starObj        -- FormatError::CannotUseStarWidthWithObject
@@ -248,10 +248,11 @@ def digitsRevLoop (radix : Nat) : Nat → Nat → List Nat
 def digitsRev (radix iv : Nat) : List Nat :=
   if iv = 0 then [0] else digitsRevLoop radix iv iv
 
-/-- `render_integer`; `iv` is the (non-negative) double before `floor() as i64` saturates it -/
+/-- `render_integer`; `iv` is the integer part of the (non-negative) double.  `integer_digits`
+    expands it exactly (base-2^32 limbs divided by the radix), so no machine-integer bound applies:
+    the digits are those of the repeated `% radix`, `/ radix` loop on the exact integer. -/
 def renderInteger (neg : Bool) (iv : Nat) (padding precision : Nat) (blank sign : Bool)
     (radix : Nat) (zeroPrefix : List Char) (prefixInPadding caps : Bool) : R (List Char) :=
-  let iv := min iv I64_MAX
   let digits := digitsRev radix iv
   let zp := padding - (if neg || blank || sign then 1 else 0)
   let prefLen := zeroPrefix.length
@@ -322,6 +323,10 @@ def formatBody (v : Val) (c : Code) (width : Nat) (precision : Option Nat) : R (
   let fpprec := precision.getD FMT_DEFAULT_FPPREC
   let iprec := precision.getD FMT_DEFAULT_IPREC
   let padding := if fl.zero && !fl.left then width else 0
+  -- `if fpprec > MAX_FLOAT_PRECISION && matches!(convtype, Scientific | Float | Shorter)`
+  if fpprec > FMT_MAX_FPPREC && (c.conv = .sci || c.conv = .flt || c.conv = .shorter) then
+    .error .tooLarge
+  else
   match c.conv with
   | .str => .ok v.disp
   | .dec => do
@@ -357,6 +362,8 @@ def formatBody (v : Val) (c : Code) (width : Nat) (precision : Option Nat) : R (
   | .chr =>
     match v with
     | .num n _ =>
+      if n.neg && n.whole ≥ 1 then .error .codepoint             -- `if n <= -1.0 { bail!(..) }`
+      else
       let cp := if n.neg then 0 else min n.whole 4294967295       -- `n as u32`
       if validScalar cp then .ok [Char.ofNat cp] else .error .codepoint
     | .str s => if s.length = 1 then .ok s else .error .type
